@@ -1324,6 +1324,7 @@ class FnEmitter:
                 'shared_ptr' in strip_cvref(t0.get('desugaredQualType') or t0.get('qualType') or '').split('<')[0]:
             return self.expr(a0)
         if op == '()' and ref.get('id') is not None:
+            self._lambda_spec = ref.get('id')      # the operator() instantiation this call refers to (generic lambdas)
             lam = self.lambda_call(n, a0, args[1:])
             if lam is not None:
                 return lam
@@ -1559,7 +1560,7 @@ class FnEmitter:
         if c.get('kind') == 'DeclRefExpr':
             rid = c['referencedDecl'].get('id')
             if rid in self.lambda_vars:
-                return self.u.call_lambda(self, self.lambda_vars[rid], args)
+                return self.u.call_lambda(self, self.lambda_vars[rid], args, spec_id=getattr(self, '_lambda_spec', None))
         return None
 
     # -- statements ----------------------------------------------------------
@@ -2494,12 +2495,13 @@ class Unit:
             self.lift(em, lam)
         return lam['_cname']
 
-    def lift(self, em, lam):
+    def lift(self, em, lam, spec=None):
         """Emit the lambda's operator() as a C function.  Captured variables become
         extra leading pointer parameters (by-reference capture) or value parameters."""
         rec = [c for c in kids(lam) if c.get('kind') == 'CXXRecordDecl']
         op = None
         caps = []
+        specs = []
         for c in kids(rec[0]) if rec else []:
             if c.get('kind') == 'CXXMethodDecl' and c.get('name') == 'operator()':
                 op = c
@@ -2510,8 +2512,24 @@ class Unit:
                     if cc.get('kind') == 'CXXMethodDecl' and cc.get('name') == 'operator()' and \
                             any(x.get('kind') == 'CompoundStmt' for x in kids(cc)):
                         op = cc
+                        if 'auto' not in re.split(r'\W+', cc.get('type', {}).get('qualType', '')):
+                            specs.append(cc)          # an instantiated body of a generic lambda (`auto` parameters)
         if op is None:
             raise Unsupported('%s: lambda without operator() at line %s' % (em.qname, em.loc(lam)))
+        if len(specs) > 1 and spec is None:
+            # generic lambda instantiated for several argument types: one C function per instantiation, chosen at the
+            # call site by the instantiation the call refers to
+            lam['_spec_cnames'] = {}
+            base = lam['_cname']
+            for k, sp in enumerate(specs):
+                lam['_cname'] = '%s__inst%d' % (base, k + 1)
+                lam['_spec_cnames'][sp['id']] = lam['_cname']
+                lam.setdefault('_spec_nodes', {})[sp['id']] = sp
+                self.lift(em, lam, spec=sp)
+            lam['_cname'] = base
+            return
+        if spec is not None:
+            op = spec
         sub = FnEmitter(self, op, em.qname, lam['_cname'], em.cfg)
         sub.is_lambda = True
         # captured variables: find DeclRefExprs in body that refer to enclosing locals
@@ -2594,7 +2612,10 @@ class Unit:
         self.lifted.append((sig, lines, sub.dropped, lam['_cname'], em.loc(lam)))
         em.dropped.extend(sub.dropped)
 
-    def call_lambda(self, em, lam, args):
+    def call_lambda(self, em, lam, args, spec_id=None):
+        cname = lam.get('_spec_cnames', {}).get(spec_id, lam['_cname'])
+        if lam.get('_spec_cnames') and spec_id not in lam['_spec_cnames']:
+            raise Unsupported('call of a generic lambda without a known instantiation')
         extra = []
         for x in lam['_call_extra']:
             # inside another lifted lambda a by-reference capture is already a pointer parameter
@@ -2602,7 +2623,19 @@ class Unit:
                 extra.append(x[1:])
             else:
                 extra.append(x)
-        return '%s(%s)' % (lam['_cname'], ', '.join(extra + [em.expr(a) for a in args]))
+        al = []
+        sp = lam.get('_spec_nodes', {}).get(spec_id)
+        ps = [c for c in kids(sp) if c.get('kind') == 'ParmVarDecl'] if sp else []
+        for i, a in enumerate(args):
+            e = em.expr(a)
+            if i < len(ps):
+                pt = ps[i].get('type', {}).get('qualType', '')
+                if pt.endswith('&') and not pt.endswith('&&') and not pt.startswith('const '):
+                    ct = self.types.ctype_of(ps[i].get('type'))
+                    if self.types.kind(ct) in ('scalar', 'value'):
+                        e = '&' + e
+            al.append(e)
+        return '%s(%s)' % (cname, ', '.join(extra + al))
 
     # -- function lookup
     def find_function(self, qname, pick=None):
